@@ -54,6 +54,10 @@
 (* for: "splitlatch" (latch tested outside the lock: LLatchLoad / LLatchStore, dev_split) and     *)
 (* "casfirst" (Start's CAS before SetCtx: dev_ctxlate); Dispose_show2.cfg shows both violations.  *)
 (*                                                                                                *)
+(* Scene "resmgr": dispose.ResourceManager DisposeAll / DisposeWithTimeout and its helper goroutine (RCall, RDisp,    *)
+(* Tw*, HSend).  Bridge.Close's connection section (XCall / XCloseConn under the connection locks, ConnOnce) and a      *)
+(* target connection arriving meanwhile (TgSet).  Hypothetical designs "snapclose" and "unbuf" as for the others.        *)
+(*                                                                                                *)
 (* Properties: AtMostOnce, ExactlyOnce, NoOverReport, TrafficExact, ClosedError, NoPanic,         *)
 (* LeakFree (bottom of the module); the cfg checks Inv* = property or, in a configuration of the  *)
 (* code as written, a listed deviation.  Goroutine births/deaths are tracked in liveG.            *)
